@@ -250,6 +250,12 @@ func generateLoop(l *ast.AstLoop, offset int, state *GenState) ([]SearchInstruct
 	current_offset := offset
 	if l.Min > 0 && l.Name == "" {
 		for i := 0; i < l.Min; i++ {
+			// the body is generated again below (next copy or the optional part), so the names it
+			// declares must not count as clashes with themselves
+			declared := make(map[string]int, len(state.variables))
+			for name, value := range state.variables {
+				declared[name] = value
+			}
 			// I kinda hate generating this everytime but I also hate the other way where we have to adjust offset values to keep pointers in the body lined up
 			body, gen_error := generateSearchInstruction(&l.Body, current_offset, state)
 			if gen_error != nil {
@@ -257,6 +263,9 @@ func generateLoop(l *ast.AstLoop, offset int, state *GenState) ([]SearchInstruct
 			}
 			result = append(result, body...)
 			current_offset += len(body)
+			if i < l.Min-1 || l.Min != l.Max {
+				state.variables = declared
+			}
 		}
 	}
 
